@@ -456,6 +456,53 @@ def r8(ctx, prog):
         raise AnalysisBroken('handler call graph too small (%d) — virtual overrides not resolved' % len(seen))
 
 
+RECORD_FIELDS = ('level', 'sec', 'usec', 'thread_id', 'module_id', 'func_name', 'text_ptr', 'text_len', 'file_name', 'line')
+
+
+def r9(ctx, prog):
+    ctx.rule('C09.R9', 'A12 record completeness: the producer fills every field of LogContent and every sink formatter prints every one of them '
+             '(level, time, thread id, module, function, text, file and line) — a record with a field left out is not "intact"', floor=3)
+    # producer
+    f = prog.fn1('LogPrintfFunc')
+    inits = set()
+    for st in f.stmts:
+        if st and st['k'] in ('DesignatedInitExpr',):
+            pass
+    # the designated initialiser list names each field; accept either designators or later member stores
+    txt_fields = set()
+    for st in f.stmts:
+        if st and st['k'] == 'MemberExpr' and st.get('mk') == 'field' and st.get('q', '').split('::')[-1] in RECORD_FIELDS + ('text_trunc', 'timestamp'):
+            txt_fields.add(st['q'].split('::')[-1])
+    cls = prog.classes.get('LogContent') or {}
+    declared = {fd['n'] for fd in cls.get('fields', ())}
+    if declared and not {'thread_id', 'module_id', 'func_name', 'file_name', 'line', 'level', 'text_len', 'text_ptr', 'text_trunc'} <= declared:
+        raise AnalysisBroken('LogContent lost a field: %s' % sorted(declared))
+    # formatters: every function that receives a LogContent and prints (snprintf/append/cout) — the async back end and the synchronous stdout sink
+    n = 0
+    for g in prog.funcs.values():
+        if g.parent_usr or not g.file.startswith(MODULES + '/log/'):
+            continue
+        if g.short not in ('onLogBackEnd', 'onLogFrontEnd'):
+            continue
+        used = {st['q'].split('::')[-1] for st in g.stmts if st and st['k'] == 'MemberExpr' and st.get('mk') == 'field' and 'LogContent' in st.get('q', '')}
+        # anonymous struct members are qualified differently
+        used |= {st['n'] for st in g.stmts if st and st['k'] == 'MemberExpr' and st.get('n') in ('sec', 'usec')}
+        prints = [c for c in g.calls() if c.get('callee') in ('snprintf', 'printf', 'fprintf', 'sprintf') or c.get('fn') in ('snprintf', 'printf', 'fprintf') or c.get('op') == '<<']
+        if not prints or not used:
+            continue        # a forwarding front end (copies the record into the pipe): completeness is the back end's job
+        n += 1
+        missing = [x for x in RECORD_FIELDS if x not in used]
+        ctx.ob('C09.R9', '%s|prints-all-fields' % g.name, not missing, 'formatter prints every record field' if not missing else
+               'formatter never reads %s: records of this sink come out without it' % ', '.join(missing), where=g.loc(g.body))
+    if n < 2:
+        raise AnalysisBroken('expected >= 2 sink formatters (async back end, sync stdout), found %d' % n)
+    # the pipe carries the whole record: the front end appends sizeof(LogContent) bytes of the record itself
+    fe = prog.fn1(ASINK + '::onLogFrontEnd')
+    aps = [c for c in fe.calls() if c.get('fn') == 'append']
+    ok = any(fe.path(c['args'][0]) == fe.params[0]['n'] and (fe.s(fe.strip_casts(c['args'][1])) or {}).get('cv') is not None for c in aps if len(c.get('args', ())) == 2)
+    ctx.ob('C09.R9', '%s|whole-header' % fe.name, ok, 'the front end ships the whole LogContent (sizeof) through the pipe', where=fe.loc(fe.body))
+
+
 def run(ctx):
     prog = extract('ALL' if ctx.tier == 'thorough' else scope_units())
     ctx.guard(r1, ctx, prog)
@@ -465,4 +512,5 @@ def run(ctx):
     ctx.guard(r6, ctx, prog)
     ctx.guard(r7, ctx, prog)
     ctx.guard(r8, ctx, prog)
+    ctx.guard(r9, ctx, prog)
     return prog
